@@ -137,7 +137,18 @@ def parse_one_request(data: bytes, pos: int, limits: dict):
     if not target or _BAD_TARGET.search(target):
         raise Rej("bad_target_bytes")
     mu = method.upper()
+    # request-target FORM x METHOD rules (RFC 9112 3.2.3 / 3.2.4, RFC 9110 9.3.6): asterisk-form is only for
+    # OPTIONS, CONNECT takes authority-form only (a server MUST reject a CONNECT without a valid port, which
+    # an origin-form / asterisk target cannot have).  Judged only when the caller asks for it
+    # (limits["strict_target_forms"]); otherwise these stay don't-care zones as before.
+    strict_forms = bool(limits.get("strict_target_forms"))
     if mu == b"CONNECT":
+        if strict_forms and target == b"*":
+            raise Rej("connect_asterisk_target")
+        if strict_forms and target.startswith(b"/"):
+            raise Rej("connect_origin_form_target")
+        if strict_forms and _ABS.fullmatch(target):
+            raise Rej("connect_absolute_form_target")
         if target.startswith(b"/") or b"://" in target:
             raise Dc("connect_with_non_authority_target")
         if not _AUTHORITY_STRICT.fullmatch(target):
@@ -146,6 +157,8 @@ def parse_one_request(data: bytes, pos: int, limits: dict):
         pass
     elif target == b"*":
         if mu != b"OPTIONS":
+            if strict_forms:
+                raise Rej("asterisk_non_options")
             raise Dc("asterisk_non_options")
     else:
         m = _ABS.fullmatch(target)
@@ -535,6 +548,19 @@ def selftest():
     assert v(b"GET / HTTP/1.1\r\nHost: a\r\nConnection: close\r\n\r\n" + ok)[0:2] == (1, "DONT_CARE")
     assert v(b"GET http://a:65536/ HTTP/1.1\r\nHost: a\r\n\r\n")[1] == "DONT_CARE"
     assert v(b"GET http://a/ HTTP/1.1\r\nHost: a\r\n\r\n") == (1, "COMPLETE", None)
+    # request-target form x method (judged only with strict_target_forms)
+    sf = {"strict_target_forms": True}
+    h = b" HTTP/1.1\r\nHost: a\r\n\r\n"
+    assert v(b"OPTIONS *" + h, sf) == (1, "COMPLETE", None) and v(b"options *" + h, sf) == (1, "COMPLETE", None)
+    assert v(b"GET *" + h)[1] == "DONT_CARE" and v(b"CONNECT /p" + h)[1] == "DONT_CARE"
+    assert v(ok + b"GET *" + h, sf) == (1, "REJECT", "asterisk_non_options")
+    assert v(b"POST * HTTP/1.1\r\nHost: a\r\nContent-Length: 3\r\n\r\nabc", sf) == (0, "REJECT", "asterisk_non_options")
+    assert v(b"CONNECT *" + h, sf) == (0, "REJECT", "connect_asterisk_target")
+    assert v(b"CONNECT /p" + h, sf) == (0, "REJECT", "connect_origin_form_target")
+    assert v(b"CONNECT http://a/p" + h, sf) == (0, "REJECT", "connect_absolute_form_target")
+    assert v(b"GET a:80" + h, sf) == (0, "REJECT", "bad_target_form") and v(b"OPTIONS a:80" + h, sf) == (0, "REJECT", "bad_target_form")
+    assert v(b"CONNECT a:80" + h, sf)[0] == 1 and v(b"CONNECT a:80" + h + ok, sf)[0:2] == (1, "DONT_CARE")
+    assert v(b"OPTIONS http://a/*" + h, sf) == (1, "COMPLETE", None) and v(b"GET /*" + h, sf) == (1, "COMPLETE", None)
     r, st = split_responses(b"HTTP/1.1 200 OK\r\nContent-Length: 2\r\n\r\nhiHTTP/1.1 404 Not Found\r\nTransfer-Encoding: chunked\r\n\r\n1\r\nx\r\n0\r\n\r\n")
     assert st == "clean" and [x["status"] for x in r] == [200, 404] and r[1]["body"] == b"x"
     r, st = split_responses(b"HTTP/1.1 200 OK\r\nContent-Length: 5\r\n\r\nhi")
